@@ -9,7 +9,7 @@
     correspondence (both builds are compared with this one model on every case). *)
 From Coq Require Import List ZArith Bool.
 From SC Require Import Base.Res Base.RustInt Base.Oracle Lang.Syntax Lang.Literal Eval.EvalI64 Eval.Run Gen.Tables
-  Spec.Surface Proofs.I64Facts Proofs.GcdFacts Proofs.Top.
+  Spec.Surface Proofs.I64Facts Proofs.GcdFacts Proofs.Top Proofs.I64Range.
 Import ListNotations.
 Local Open Scope Z_scope.
 
@@ -17,6 +17,19 @@ Theorem C06_exact_or_err :
   forall (L : libm) a, scope a = true -> eval_i64 L a = of_option (denoteZ a).
 Proof. exact eval_i64_exact. Qed.
 Print Assumptions C06_exact_or_err.
+
+(** every value of the reference semantics (hence every Ok result of eval_i64 on an in-scope tree, and every
+    intermediate) lies in [-2^63, 2^63 - 1]: & | % >> cannot leave the range, all other steps are range-checked *)
+Theorem C06_results_in_range :
+  (forall a v, scope a = true -> denoteZ a = Some v -> in_i64 v = true) /\
+  (forall x y, in_i64 x = true -> in_i64 y = true -> in_i64 (Z.land x y) = true /\ in_i64 (Z.lor x y) = true) /\
+  (forall x y, in_i64 y = true -> y <> 0 -> in_i64 (Z.rem x y) = true) /\
+  (forall x c, in_i64 x = true -> 0 <= c -> in_i64 (x / 2 ^ c) = true).
+Proof.
+  split; [exact denoteZ_range|]. split; [intros; split; [now apply land_range|now apply lor_range]|].
+  split; [exact rem_range|exact shr_range].
+Qed.
+Print Assumptions C06_results_in_range.
 
 (** through the public entry point: a well-formed expression over the property's operators *)
 Theorem C06_public :
